@@ -36,7 +36,7 @@ type c02Fixture struct {
 	ws    [3]wd
 	trees map[string]*wtree // "R12", "R123"; "Rbad" has no tree
 	bad   [32]byte
-	t2    *wtree // bridge 2's own tree: its single withdrawal is paid before the exploration starts
+	t2    *wtree // bridge 3's own tree: its single withdrawal is paid before the exploration starts
 }
 
 func newC02Fixture() *c02Fixture {
@@ -52,7 +52,7 @@ func newC02Fixture() *c02Fixture {
 	fx.trees["R123"] = mkTree("R123", fx.ws[:3], 0)
 	fx.bad = ref.Sum256([]byte("bad root"))
 	other := world.Addr("challenger2").String() // an account the model of bridge 1 does not watch
-	fx.t2 = mkTree("c02-b2", []wd{{Bridge: 2, Seq: 1, From: "l2user", To: other, Denom: "uxx", Amount: 1}}, 0)
+	fx.t2 = mkTree("c02-b3", []wd{{Bridge: c02Neighbour, Seq: 1, From: "l2user", To: other, Denom: "uxx", Amount: 1}}, 0)
 	return fx
 }
 
@@ -61,6 +61,9 @@ type c02Sys struct{}
 type c02Propose struct{ root string }
 type c02Delete struct{ idx uint64 }
 type c02Advance struct{ d time.Duration }
+// c02Neighbour is the bridge with a paid withdrawal of its own; bridge 2, between it and the explored bridge 1, is idle.
+const c02Neighbour = 3
+
 type c02Restart struct{}
 type c02NewBridge struct{}
 type c02Finalize struct {
@@ -78,13 +81,18 @@ func (c02Sys) Root() *c02State {
 	if !res.OK() {
 		panic(res.Err)
 	}
-	// bridge 2 has a life of its own: an output, final by now, and one paid withdrawal
+	// bridge 2 exists and stays idle; bridge 3 (not the next id after the explored bridge 1: whatever walks the
+	// claim records bridge by bridge has an empty bridge in between) has a life of its own: an output, final by
+	// now, and one paid withdrawal
+	if res := w.Deliver(w.Ctx, ophosttypes.NewMsgCreateBridge(world.Addr("creator").String(), world.BridgeConfig("proposer", "challenger", c02Period))); !res.OK() {
+		panic(res.Err)
+	}
 	fx := newC02Fixture()
 	t2 := fx.t2
 	ctx := w.Ctx
 	for _, m := range []sdk.Msg{
-		ophosttypes.NewMsgInitiateTokenDeposit(world.Addr("alice").String(), 2, "l2addr", world.Coin("uxx", 5), nil),
-		ophosttypes.NewMsgProposeOutput(world.Addr("proposer").String(), 2, 1, 7, t2.OutputRoot[:]),
+		ophosttypes.NewMsgInitiateTokenDeposit(world.Addr("alice").String(), c02Neighbour, "l2addr", world.Coin("uxx", 5), nil),
+		ophosttypes.NewMsgProposeOutput(world.Addr("proposer").String(), c02Neighbour, 1, 7, t2.OutputRoot[:]),
 	} {
 		if res := w.Deliver(ctx, m); !res.OK() {
 			panic(res.Err)
@@ -114,9 +122,9 @@ func (c02Sys) Letters(s *c02State) []engine.Letter {
 	ls = append(ls, engine.Letter{Name: "Advance(4s)", Data: c02Advance{4 * time.Second}})
 	ls = append(ls, engine.Letter{Name: "Advance(10s)", Data: c02Advance{c02Period}})
 	ls = append(ls, engine.Letter{Name: "RestartViaGenesis", Data: c02Restart{}})
-	// the chain goes on living around the two bridges: somebody opens a third one (once)
-	if n, err := s.w.HK.GetNextBridgeId(s.ctx); err == nil && n == 3 {
-		ls = append(ls, engine.Letter{Name: "CreateBridge(a third one)", Data: c02NewBridge{}})
+	// the chain goes on living around the three bridges: somebody opens a fourth one (once)
+	if n, err := s.w.HK.GetNextBridgeId(s.ctx); err == nil && n == 4 {
+		ls = append(ls, engine.Letter{Name: "CreateBridge(one more)", Data: c02NewBridge{}})
 	}
 	for wi := 0; wi < 3; wi++ {
 		for idx := uint64(1); idx <= 2; idx++ {
@@ -255,20 +263,20 @@ func (c02Sys) Step(s *c02State, l engine.Letter) (*c02State, string, *engine.Vio
 
 func (c02Sys) Check(s *c02State) *engine.Violation {
 	if s.setup != "" {
-		return viol("valid-claim-against-a-final-output-is-paid", "building the start state: the single withdrawal of bridge 2, committed by its final output 1, was refused: %s", s.setup)
+		return viol("valid-claim-against-a-final-output-is-paid", "building the start state: the single withdrawal of bridge 3, committed by its final output 1, was refused: %s", s.setup)
 	}
-	// bridge 2's withdrawal was paid before the exploration started: it stays claimed, whatever happens
+	// bridge 3's withdrawal was paid before the exploration started: it stays claimed, whatever happens
 	// on bridge 1 (and through every restart), and can never be paid again
 	{
 		t2 := s.fx.t2
 		h := t2.Ws[0].leaf()
-		r, err := s.w.Q.Claimed(s.ctx, &ophosttypes.QueryClaimedRequest{BridgeId: 2, WithdrawalHash: h[:]})
+		r, err := s.w.Q.Claimed(s.ctx, &ophosttypes.QueryClaimedRequest{BridgeId: c02Neighbour, WithdrawalHash: h[:]})
 		if err != nil || !r.Claimed {
-			return viol("claimed-query-iff-paid", "Claimed(bridge 2, its paid withdrawal) = %v (err=%v)", r, err)
+			return viol("claimed-query-iff-paid", "Claimed(bridge 3, its paid withdrawal) = %v (err=%v)", r, err)
 		}
 		bctx, _ := s.ctx.CacheContext()
 		if res := s.w.Deliver(bctx, t2.claim(0, 1, "bob")); res.OK() {
-			return tagged(viol("withdrawal-paid-at-most-once", "bridge 2's withdrawal, paid before the exploration started, was paid again"), "kind", "double-pay")
+			return tagged(viol("withdrawal-paid-at-most-once", "bridge 3's withdrawal, paid before the exploration started, was paid again"), "kind", "double-pay")
 		}
 	}
 	sum := int64(0)
@@ -287,6 +295,12 @@ func (c02Sys) Check(s *c02State) *engine.Violation {
 		}
 		if s.paid[i] {
 			sum += int64(w.Amount)
+		}
+	}
+	{
+		h := s.fx.t2.Ws[0].leaf()
+		if r, err := s.w.Q.Claimed(s.ctx, &ophosttypes.QueryClaimedRequest{BridgeId: 2, WithdrawalHash: h[:]}); err != nil || r.Claimed {
+			return viol("claimed-query-iff-paid", "Claimed(bridge 2, the withdrawal bridge 3 paid) = %v err=%v; bridge 2 never had an output", r != nil && r.Claimed, err)
 		}
 	}
 	if got := balanceOf(s.w, s.ctx, world.Addr("bob"), "uxx"); got != sum {
@@ -309,7 +323,7 @@ func init() {
 			}
 			res.Absorb("c02", rep)
 			res.Coverage["alphabet"] = "Propose(next, root∈{R12,R123,Rbad}); Delete(i∈{1,2}); Advance∈{4s,10s}; Finalize(w∈{w1,w2,w3}, idx∈{1,2}, proof∈{in T12, in T123}, by∈{bob,stranger})"
-			res.Coverage["oracle"] = "paid[w]≤1; finalize accepted ⇒ unpaid ∧ output at idx stored, final, root matches the proof's tree (independent tree/leaf/output-root code); recipient and escrow balances equal the paid ledger; Claimed query ⇔ paid in every state (and false under bridge 2); rejected ⇒ digest unchanged"
+			res.Coverage["oracle"] = "paid[w]≤1; finalize accepted ⇒ unpaid ∧ output at idx stored, final, root matches the proof's tree (independent tree/leaf/output-root code); recipient and escrow balances equal the paid ledger; Claimed query ⇔ paid in every state (and false under the idle bridge 2; bridge 3's own paid withdrawal stays claimed and unpayable); rejected ⇒ digest unchanged"
 			res.Assumptions = []string{"3 leaves, 2 trees sharing w1,w2, one bogus root, period 10s; histories to the completed depth", "escrow pre-funded with twice the sum of all leaves"}
 			for _, k := range []string{"Finalize/accepted", "Finalize/accepted-via-idx2", "Finalize/rejected-already-paid", "Delete/accepted", "Propose/accepted"} {
 				res.Require(res.OutcomeCount("c02", k) > 0, "outcome %s never occurred", k)
